@@ -78,3 +78,27 @@ package posix
 //@        && fi.Name() > input.ContinuationToken && strings.HasPrefix(fi.Name(), input.Prefix)
 //@   at-return {C16} [stops-early-only-with-a-token-for-the-last-entry] when err == nil :: \
 //@        ensures rangeindex + 1 >= len(result("posix.listBucketFileInfos", 0)) || (len(buckets) > 0 && ret0.ContinuationToken == buckets[len(buckets) - 1].Name)
+
+// ---- C08: multipart uploads ------------------------------------------------------------------------
+// helpers that only read (assumed frame conditions)
+//@ func (*Posix) retrieveChecksums
+//@   frame none
+//@ func validatePartChecksum
+//@   frame none
+//@ func (*Posix) checkUploadIDExists
+//@   frame none
+// Completion assembles the object only from a part list that is well-formed: every part number present
+// and at least 1, strictly increasing (no number twice), every ETag present.
+//@ func (*Posix) CompleteMultipartUpload
+//@   arith assumed
+//@   let wf = parts[j].PartNumber != nil && *parts[j].PartNumber >= 1 && parts[j].ETag != nil && (j > 0 ==> *parts[j - 1].PartNumber < *parts[j].PartNumber)
+//@   loop 1 invariant {C08} [bounds] -1 <= rangeindex && rangeindex < len(parts)
+//@   loop 1 invariant {C08} [validated-so-far] forall j int :: 0 <= j && j <= rangeindex ==> wf
+//@   loop 1 invariant {C08} [last-number-seen] (rangeindex == -1 ==> partNumber == 0) && (rangeindex >= 0 ==> partNumber == *parts[rangeindex].PartNumber)
+//@   at-call posix.Posix.openTmpFile {C08} [assembled-only-from-a-valid-part-list] requires forall j int :: 0 <= j && j < len(parts) ==> wf
+//@   at-call os.RemoveAll {C08} [removes-only-this-upload] requires $0 == filepath.Join(bucket, objdir, uploadID)
+// Creating an upload cleans up after a failure by removing its own directory only.
+//@ func (*Posix) CreateMultipartUpload
+//@   at-call os.RemoveAll {C08} [cleanup-removes-only-this-upload] requires $0 == filepath.Join(tmppath, uploadID)
+//@ func (*Posix) AbortMultipartUpload
+//@   at-call os.RemoveAll {C08} [abort-removes-only-this-upload] requires $0 == filepath.Join(objdir, uploadID)
